@@ -70,6 +70,8 @@ ASSUMPTIONS = ['tile coordinates and levels are non-negative',
                'all addresses of one cache use the same dimension keys (lower case, distinct); values are arbitrary text',
                'quadkey layout: x, y < 2^z and no dimensions; arcgis layout: no dimensions (finding F4 otherwise)',
                'sqlite / compact back-ends: no dimensions (the configuration loader refuses dimension layers there)',
+               'mbtiles / sqlite with a ttl: the ttl (>= 1 h in the probes) is longer than the history takes, so the '
+               'ttl condition of the SELECTs holds for every row; the models have no clock (same model as without ttl)',
                'compact back-ends: x, y < 2^31 (the v1 bundle header stores the bundle origin in 32 bit fields and '
                'struct.pack refuses larger values; the key-level model has no such limit)',
                'every operation is given fresh Tile objects; no concurrent writers (C06/C07/C08 cover those)',
@@ -151,12 +153,16 @@ class Payloads(object):
 def cfg_name(cfg):
     if cfg['kind'] == 'file':
         return 'file/%s/%s' % (cfg['layout'], cfg['link'])
+    if cfg.get('ttl'):
+        return '%s/ttl=%d/TZ=%s' % (cfg['kind'], cfg['ttl'], cfg.get('tz', 'UTC'))
     return cfg['kind']
 
 
 def cfg_sig(cfg):
     if cfg['kind'] == 'file':
         return 'file,layout=%s,link=%s' % (cfg['layout'], cfg['link'])
+    if cfg.get('ttl'):
+        return cfg['kind'] + ',ttl'
     return cfg['kind']
 
 
@@ -176,9 +182,13 @@ def make_backend(cfg, d):
         return FileCache(d, 'png', directory_layout=cfg['layout'], link_single_color_images=link)
     if k == 'mbtiles':
         from mapproxy.cache.mbtiles import MBTilesCache
+        if cfg.get('ttl'):
+            return MBTilesCache(os.path.join(d, 'c.mbtiles'), with_timestamps=True, ttl=cfg['ttl'])
         return MBTilesCache(os.path.join(d, 'c.mbtiles'))
     if k == 'sqlite':
         from mapproxy.cache.mbtiles import MBTilesLevelCache
+        if cfg.get('ttl'):
+            return MBTilesLevelCache(d, ttl=cfg['ttl'])
         return MBTilesLevelCache(d)
     if k in ('geopackage', 'geopackage_level'):
         from mapproxy.cache.geopackage import GeopackageCache, GeopackageLevelCache
@@ -343,7 +353,32 @@ def run_store_fault(pay, cache, op):
         return ['raised', type(e).__name__]
 
 
+def set_tz(tz):
+    """switch the time zone of this process (the C library's localtime, which SQLite's 'localtime' modifier uses);
+    returns the previous value of TZ"""
+    import time
+    old = os.environ.get('TZ')
+    if tz is None:
+        os.environ.pop('TZ', None)
+    else:
+        os.environ['TZ'] = tz
+    time.tzset()
+    return old
+
+
 def run_history(ctx, pay, cfg, ops):
+    if cfg.get('tz'):
+        # configurations with a ttl: the whole history runs in the given time zone (POSIX TZ strings, no tzdata
+        # needed: 'XXX5' = five hours west of UTC).  The ttl is far longer than the history takes.
+        old = set_tz(cfg['tz'])
+        try:
+            return run_history_1(ctx, pay, cfg, ops)
+        finally:
+            set_tz(old)
+    return run_history_1(ctx, pay, cfg, ops)
+
+
+def run_history_1(ctx, pay, cfg, ops):
     d = ctx.tmpdir('c')
     cache = make_backend(cfg, d)
     try:
@@ -508,8 +543,8 @@ def oracle(ctx, pay, cfg, ops, outs, origin):
             sig = classify(cfg, ops, i, e, g)
         # minimal replay: the operations that touch the addresses of op i
         touched = set(op_addresses(ops[i]))
-        if cfg['kind'] == 'file' and cfg['layout'] in NO_DIM_LAYOUTS:
-            keep = list(range(i + 1))
+        if (cfg['kind'] == 'file' and cfg['layout'] in NO_DIM_LAYOUTS) or i < 16:
+            keep = list(range(i + 1))     # short: the whole prefix (the culprit is an operation on ANOTHER address)
         else:
             keep = [j for j in range(i + 1) if touched & set(op_addresses(ops[j]))]
         ctx.fail(sig, '%s: operation %d %r returned %r, the map address -> bytes says %r' % (
@@ -861,6 +896,52 @@ def compact_probes():
                                       ('store', (128, 128, 9, ()), 11), ('reopen',), ('load', (128, 128, 9, ())),
                                       ('load', (130, 128, 9, ())), ('load', (255, 255, 9, ()))],
                         'probe:bundle-beyond-4GiB'))
+    return out
+
+
+def deep_level_probes():
+    """compact v1 / v2: addresses of deep levels whose column / row differ by a power of two >= 2^16 (same slot inside
+    their bundles, bundle names differ in the high hex digits only); file layouts get the same addresses."""
+    out = []
+    cfgs = [{'kind': k} for k in COMPACT_KINDS] + [{'kind': 'file', 'layout': lay, 'link': 'none'}
+                                                   for lay in ('tc', 'mp', 'tms', 'arcgis')]
+    for cfg in cfgs:
+        for (z, strides) in ((17, (1 << 16,)), (31, (1 << 17, 1 << 20, 1 << 24, 1 << 30))):
+            for s in strides:
+                a, b, c, d = (5, 7, z), (s + 5, 7, z), (5, s + 7, z), (s + 5, s + 7, z)
+                e = () if cfg['kind'] != 'file' else ()
+                A, B, C, D = a + (e,), b + (e,), c + (e,), d + (e,)
+                ops = [('store', A, 6), ('cached', B), ('cached', C), ('load', B), ('load', C), ('load', D),
+                       ('store', B, 7), ('store', C, 8), ('load', A), ('load', B), ('load', C),
+                       ('load_many', [a, b, c, d], ()), ('store_many', [(d, 9), (a, 10)], ()),
+                       ('load_many', [d, c, b, a], ()), ('remove', B), ('remove', C), ('load', A), ('cached', D),
+                       ('reopen',), ('load_many', [a, b, c, d], ()), ('remove', D), ('load', A), ('cached', B)]
+                out.append((cfg, ops, 'probe:deep-level-stride-2^%d' % (s.bit_length() - 1)))
+    return out
+
+
+TTL_ZONES = ['UTC0', 'XXX5', 'XXX-5', 'XXX11:30', 'XXX-13']
+
+
+def ttl_probes():
+    """mbtiles / per-level sqlite configured with a ttl (option `ttl`, time stamps on) that is far longer than the
+    history takes, in time zones west and east of UTC: the cache is the same map (single load, bulk load, existence
+    check agree with the stores of a moment ago)."""
+    out = []
+    a, b, c, d = (0, 0, 0), (127, 128, 9), (128, 127, 9), (1, 0, 1)
+    e = ()
+    for k in ('mbtiles', 'sqlite'):
+        for tz in TTL_ZONES:
+            for ttl in (3600, 86400 * 365):
+                if ttl != 3600 and tz not in ('XXX5', 'XXX-5'):
+                    continue
+                ops = [('store', a + (e,), 6), ('store', b + (e,), 7), ('load', a + (e,)), ('load', b + (e,)),
+                       ('cached', a + (e,)), ('load_many', [a, b], ()), ('load_many', [b], ()), ('load_many', [a, b, c], ()),
+                       ('store_many', [(c, 8), (d, 9), (a, 10)], ()), ('load_many', [a, b, c, d], ()),
+                       ('cached', c + (e,)), ('load', d + (e,)), ('remove', b + (e,)), ('load_many', [a, c, d], ()),
+                       ('load_many', [b, a], ()), ('reopen',), ('load_many', [d, c, a], ()), ('load', a + (e,)),
+                       ('store', b + (e,), 11), ('load_many', [b], ()), ('cached', b + (e,))]
+                out.append(({'kind': k, 'ttl': ttl, 'tz': tz}, ops, 'probe:ttl-time-zone'))
     return out
 
 
@@ -1358,6 +1439,8 @@ def run(ctx):
     todo += dup_probes()
     todo += compact_probes()
     todo += layout_probes()
+    todo += deep_level_probes()
+    todo += ttl_probes()
     todo += colour_probes(pay)
     todo += [c for c in bulk_store_dup_probes() if not ctx.quick or c[0].get('link', 'none') == 'none']
     todo += [c for c in dimension_value_probes() if not ctx.quick or c[0]['link'] == 'none']
